@@ -86,7 +86,7 @@ impl Prop for C10 {
         let conf = gen::wconf_with(Just(0u8).boxed());
         let s = (conf, gen::entry_src(tier), vec(any::<u16>(), 60), vec(gen::probe(), 20), vec(range_strategy(), 10), vec(prefix_strategy(), 10), gen::history(120))
             .prop_map(|(conf, src, picks, probes, ranges, prefixes, ops)| Case { spec: FileSpec { conf, src }, picks, probes, ranges, prefixes, ops });
-        vec![stage("files", s, tier.pick(4000, 60_000)).shrink(600)]
+        vec![stage("files", s, tier.pick(2000, 60_000)).shrink(600)]
     }
 
     fn rule(&self) -> String {
@@ -130,6 +130,27 @@ impl Prop for C10 {
             fail!("c10:v1:backward", "backward scan of the V1 file differs from the content: {}", d);
         }
         ensure!(r1 == r2, "c10:v1-vs-v2", "V1 and V2 encodings of the same content answer differently (len/codec/scan)");
+        // the same through a plain user-written `Read + Seek` source (no specialised read_vectored/read_exact), whole
+        // and in short pieces
+        for tape in [&[][..], &[0u8, 3, 0xE0, 200][..]] {
+            let ctl = crate::ioinstr::ctl_with_tape(tape);
+            let src = crate::ioinstr::Source::new(std::rc::Rc::new(v1.clone()), ctl);
+            let rs = rd::guard("Reader::new", || grenad::Reader::new(src))?;
+            ensure!(rs.file_version() == grenad::FileVersion::FormatV1, "c10:source:version", "file_version() = {:?} through a plain Read+Seek source", rs.file_version());
+            ensure!(rs.len() == n as u64, "c10:source:len", "len() = {} through a plain Read+Seek source, the V1 trailer stores {}", rs.len(), n);
+            ensure!(
+                Codec::of_g5(rs.compression_type()) == case.spec.conf.codec,
+                "c10:source:codec",
+                "compression_type() = {:?} through a plain Read+Seek source, the V1 trailer stores {:?}",
+                rs.compression_type(),
+                case.spec.conf.codec
+            );
+            let mut c = rd::guard("into_cursor", || rs.into_cursor())?;
+            let fwd = rd::scan_fwd(&mut c, n + 2)?;
+            if let Some(d) = rd::first_diff(&fwd, &entries) {
+                fail!("c10:source:forward", "forward scan of the V1 file through a plain Read+Seek source: {}", d);
+            }
+        }
 
         let nd = fmtdec::decode(&v2, &fmtdec::Opts::lax()).map(|d| d.n_data_blocks()).unwrap_or(0);
         obs.class(format!("codec={}", case.spec.conf.codec.name()));
